@@ -879,6 +879,15 @@ def rule_impulsetrain(ctx):
     f = ctx.program.func("beat.p_score", R)
     s = ctx.S.get(f.qual)
     cor = [c for c in s.calls() if c.callee == "np.correlate"]
+    if not cor:
+        # the correlation of two 0/1 trains over a window of lags is the number of impulse pairs at most that far
+        # apart - of *distinct* impulse positions: a pair count over the raw beat indices counts two beats that fall
+        # into one 10 ms sample twice (and the normalised score can exceed 1)
+        outer = [c for c in s.calls() if c.callee in ("np.subtract.outer",) and len(c.args) == 2]
+        if len(outer) == 1:
+            dedup = [a.op == "call" and call_name(a) == "np.unique" for a in outer[0].args]
+            yield ob(R, f, "beat.p_score:indicator-trains", all(dedup), "impulse pairs are counted over the distinct sample positions of each sequence (np.unique): the indicator-train correlation" if all(dedup) else "impulse pairs are counted over the raw sample indices %s: beats sharing a sample are counted separately, where the indicator trains of the definition hold a single impulse" % " / ".join(tm.show(a, 2) for a, d_ in zip(outer[0].args, dedup) if not d_), node=outer[0].node)
+            return
     need(len(cor) == 1 and len(cor[0].args) >= 2, R, "p_score: np.correlate call not found")
     mode = cor[0].args[2] if len(cor[0].args) > 2 else dict(cor[0].kw).get("mode")
     yield ob(R, f, "beat.p_score:correlate-mode", mode is not None and tm.is_const(mode, "full"), "the trains are correlated in mode 'full': the lag window is cut around the middle of the full correlation" if mode is not None and tm.is_const(mode, "full") else "np.correlate runs in mode %s: the middle-lag arithmetic below assumes the full correlation, and a window wider than the shorter output wraps to a negative slice start" % (tm.show(mode, 1) if mode is not None else "'valid' (the default)"), node=cor[0].node)
